@@ -534,7 +534,8 @@ class GBNFCompiler:
 
     def _compile_date(self) -> str:
         """Compile DATE constraint to YYYY-MM-DD pattern."""
-        return '[0-9][0-9][0-9][0-9] "-" [0-9][0-9] "-" [0-9][0-9]'
+        # Written quoted: a bare 2024-01-15 is tokenized as the numbers 2024, -01 and -15
+        return '"\\"" [0-9][0-9][0-9][0-9] "-" [0-9][0-9] "-" [0-9][0-9] "\\""'
 
     def _compile_iso8601(self) -> str:
         """Compile ISO8601 constraint to datetime pattern."""
@@ -542,7 +543,8 @@ class GBNFCompiler:
         date = '[0-9][0-9][0-9][0-9] "-" [0-9][0-9] "-" [0-9][0-9]'
         time = '"T" [0-9][0-9] ":" [0-9][0-9] ":" [0-9][0-9]'
         tz = '("Z" | ("+" | "-") [0-9][0-9] ":" [0-9][0-9])?'
-        return f"{date} ({time} {tz})?"
+        # Written quoted: a bare date/time is tokenized as numbers and operators
+        return f'"\\"" {date} ({time} {tz})? "\\""'
 
     def _escape_literal(self, value: str) -> str:
         """Escape special characters for GBNF literal.
